@@ -175,11 +175,36 @@ def grep_forbidden(paths):
 
 # ---------------------------------------------------------------- correspondence
 
-def gen_ops(domain, seed, n, tier, path):
+def gen_ops(domain, seed, n, tier, path, focus=None):
     with open(path, "w") as f:
         rc = subprocess.run([os.path.join(BUILD, "harness"), "gen", domain, "-seed", str(seed), "-n", str(n),
-                             "-tier", tier, "-facts", FACTS], stdout=f, stderr=subprocess.PIPE, text=True)
+                             "-tier", tier, "-facts", FACTS] + (["-focus", focus] if focus else []),
+                            stdout=f, stderr=subprocess.PIPE, text=True)
     return rc.returncode == 0, rc.stderr
+
+
+def focus_targets(broken):
+    """where to search, from what no longer checks: `nasMessage/NAS_<Msg>.go` -> msg:<Msg>; `nasType/NAS_<T>.go` -> type:<T>;
+    nas.go / nas_generated.go -> entry; a table / well-formedness obligation that fails names its message in the Lean error"""
+    t = []
+    for b in broken:
+        d = b.get("detail")
+        d = json.dumps(d) if not isinstance(d, str) else d
+        for m in re.finditer(r"nasMessage/NAS_(\w+)\.go", d):
+            t.append("msg:" + m.group(1))
+        for m in re.finditer(r"nasType/NAS_(\w+)\.go", d):
+            t.append("type:" + m.group(1))
+        if re.search(r"\bnas(_generated)?\.go", d):
+            t.append("entry")
+        for m in re.finditer(r"\b(?:dec|enc|msg)_(\w+)", d):
+            t.append("msg:" + m.group(1))
+    out = []
+    for x in t:
+        if x not in out:
+            out.append(x)
+    if not out:
+        return None
+    return ",".join(out[:12])
 
 
 def run_go(ops_path, out_path, mode=("run",), timeout=3600, env=None):
